@@ -58,10 +58,10 @@ UBegin ==
      ELSE /\ pc' = "upload" /\ cur' = [cur EXCEPT !.since = now]
           /\ nups' = nups + 1 /\ lastAt' = now /\ lastBody' = cur.body /\ UNCHANGED until
   /\ UNCHANGED <<gen, last, s3, cancelled, now>>
-MustFail == cancelled \/ now >= cur.since + UploadTimeout
+MustFail == cancelled
 UEnd(ok) ==
   /\ pc = "upload"
-  /\ (ok => (s3 = "ok" /\ ~MustFail)) /\ (~ok => (s3 = "fail" \/ MustFail))
+  /\ (ok => (s3 = "ok" /\ ~MustFail)) /\ (~ok => (s3 = "fail" \/ s3 = "hold" \/ MustFail))
   /\ last' = IF ok THEN cur.g ELSE last
   /\ pc' = "wait" /\ until' = now + Minute
   /\ UNCHANGED <<gen, cur, s3, cancelled, now, nups, lastAt, lastBody>>
@@ -81,7 +81,7 @@ Urgent ==
 Advance ==
   /\ ~Urgent
   /\ now' \in Int /\ now' > now
-  /\ (pc = "wait" => now' <= until) /\ (pc = "upload" => now' <= cur.since + UploadTimeout)
+  /\ (pc = "wait" => now' <= until)
   /\ UNCHANGED <<gen, last, pc, cur, until, s3, cancelled, nups, lastAt, lastBody>>
 Next == Check \/ Read \/ UBegin \/ UEnd(TRUE) \/ UEnd(FALSE) \/ WaitOver \/ Exit \/ DbWrite \/ S3Mode \/ Cancel \/ Advance
 
@@ -92,7 +92,7 @@ IndInv ==
   /\ (nups > 0 => (lastBody >= 1 /\ lastBody <= gen /\ lastAt <= now))                  \* Consistent
   /\ (pc \in {"read", "ubegin", "upload"} => (cur.g >= 1 /\ cur.g <= gen /\ cur.g # last))
   /\ (pc \in {"ubegin", "upload"} => (cur.body >= cur.g /\ cur.body <= gen))            \* success covers no more than was read
-  /\ (pc = "upload" => (cur.since = lastAt /\ nups > 0 /\ now <= cur.since + UploadTimeout))
+  /\ (pc = "upload" => (cur.since = lastAt /\ nups > 0))
   /\ (pc = "wait" => until <= now + Minute)
   /\ ((nups > 0 /\ pc \in {"check", "read", "ubegin"}) => now >= lastAt + Minute)       \* RateLimit, inductively
   /\ ((nups > 0 /\ pc = "wait") => until >= lastAt + Minute)
